@@ -124,6 +124,27 @@ class C12:
             # a new child graph instance per selection (incl. re-selection of an earlier key)
             if stats["child_graph_instances"] != instances:
                 v = ("branch_instances", "%d selections in the model, %d child graph instances started" % (instances, stats["child_graph_instances"]))
+        if not v and error_at is None:
+            # the de-selected branch receives no further evaluations: every user-code evaluation inside the switch belongs to
+            # the function selected at that time
+            logs = {"AddOne": {"AddOne"}, "Accum": {"Accum"}, "Chain": {"Accum", "AddOne"}, "TickAfter": {"TickAfter"}, "AddKey": {"AddKey"},
+                    "ConstSource": {"ConstSource"}}
+            khist = ho.ts_history([w for w in sc["writers"] if w["id"] == 1][0])
+            sel = {}
+            cur_key = None
+            for t, k in khist:
+                if k != cur_key or case["spec"].get("reload"):
+                    cur_key = k
+                    sel[t] = case["spec"]["cases"].get(str(k), case["spec"].get("default"))
+            for e in res.events:
+                if e["k"] == "h" and e["e"] == "ev":
+                    active = None
+                    for t in sorted(sel):
+                        if t <= e["t"]:
+                            active = sel[t]
+                    if active is None or e["f"] not in logs.get(active, set()):
+                        v = ("deselected_branch_evaluated", "t=%d user code of %s ran inside the switch while the selected branch is %s" % (e["t"], e["f"], active))
+                        break
         keys = [k for (_, k) in ho.ts_history([w for w in sc["writers"] if w["id"] == 1][0])]
         seen = []
         for a, b in zip(keys, keys[1:]):
